@@ -288,14 +288,26 @@ creationDateLoop:
 		glyphs[string(name)] = glyph
 	}
 
+	isComposite := make(map[string]bool, len(ctx.seacs))
+	for _, seac := range ctx.seacs {
+		isComposite[seac.name] = true
+	}
 	for _, seac := range ctx.seacs {
 		// the two character codes of seac refer to StandardEncoding,
 		// whatever the encoding of the font is
 		if seac.base < 0 || seac.base > 255 || seac.accent < 0 || seac.accent > 255 {
 			continue
 		}
-		base := glyphs[psenc.StandardEncoding[seac.base]]
-		accent := glyphs[psenc.StandardEncoding[seac.accent]]
+		baseName := psenc.StandardEncoding[seac.base]
+		accentName := psenc.StandardEncoding[seac.accent]
+		if isComposite[baseName] || isComposite[accentName] {
+			// Nested composites are not valid.  Resolving them would make the
+			// result depend on the order of the glyphs, and a chain of
+			// composites doubles the size of the outline at every step.
+			continue
+		}
+		base := glyphs[baseName]
+		accent := glyphs[accentName]
 		if base == nil || accent == nil {
 			continue
 		}
